@@ -3,6 +3,7 @@
 package c04
 
 import (
+	"strconv"
 	"fmt"
 	"math/rand"
 
@@ -17,6 +18,12 @@ func init() {
 }
 
 func gen(rng *rand.Rand, tier core.Tier, emit core.Emit) {
+	// concurrent reporters: every reply must be its own sender's
+	if tier == core.Thorough {
+		emit("wpar", "8", "1500")
+	} else {
+		emit("wpar", "8", "250")
+	}
 	// histories through the real reporter component (fx wiring, UDP server, handler goroutines) over loopback sockets
 	nw := 12
 	if tier == core.Thorough {
@@ -104,6 +111,15 @@ func exec(op string, args []string) []string {
 	if op == "ucf" && len(args) == 3 {
 		var out []string
 		if txt, ok := core.Guard(func() { out = ucops.RunUC(world.DefaultOptions(), args[0], args[1], args[2]) }); !ok {
+			return []string{fmt.Sprintf("harness-panic:%s", txt)}
+		}
+		return out
+	}
+	if op == "wpar" && len(args) == 2 { // concurrent reporters against the real reporter component
+		var out []string
+		k, _ := strconv.Atoi(args[0])
+		rounds, _ := strconv.Atoi(args[1])
+		if txt, ok := core.Guard(func() { out = reputil.RunWirePar(k, rounds) }); !ok {
 			return []string{fmt.Sprintf("harness-panic:%s", txt)}
 		}
 		return out
